@@ -157,7 +157,8 @@ def unit_backward(pattern):
     """pattern: string over {T: tensor requiring grad, N: tensor not requiring grad, X: non-tensor}; the first
     `nexp` entries are explicit parameters, the rest object parameters"""
     rf, misc = _mods()
-    pat, nexp = pattern
+    pat, nexp = pattern[0], pattern[1]
+    alias = len(pattern) > 2 and pattern[2]
 
     def run():
         c = ctx()
@@ -172,6 +173,8 @@ def unit_backward(pattern):
                 allparams.append(st.vec("th%d" % i, (3,), (0,), requires_grad=False))
             else:
                 allparams.append(("nontensor", i))
+        if alias:
+            allparams[-1] = allparams[0]       # one tensor reaches the function through two slots (explicit + object-held)
         params, objparams = allparams[:nexp], allparams[nexp:]
         F = AbsFn("f", objparams)
         fcn = _Callable(F)
@@ -250,6 +253,10 @@ def unit_backward(pattern):
                 else:
                     okc = okc and (u is o)
             c.check("pull_back_at_releafed_copies_in_original_positions(connected_when_recorded)", okc)
+            if alias:
+                tslots = [u for u, k in zip(used, pat) if k == "T"]
+                c.check("a_tensor_in_two_slots_gets_one_copy_per_slot(positional_gradients)",
+                        len(tslots) == 2 and tslots[0] is not tslots[1])
         ag = [k for nme, k in c.calls if nme == "autograd.grad"]
         c.check("create_graph_follows_grad_mode", len(ag) == 1 and ag[0]["create_graph"] == grad_enabled and ag[0]["allow_unused"])
         c.check("objparams_restored", F._cur is not None and len(F._stack) == 0 and all(a is b for a, b in zip(F._cur, objparams)))
@@ -275,7 +282,7 @@ def unit_backward(pattern):
                 c.check("slot[%d:T]_shape" % i, gi.shape == allparams[i].shape)
         c.prove("ift_vjp_identity:<g,dy>=sum<grad_i,dtheta_i>", lhs == rhs)
         c.prove("canary", z3.BoolVal(False), kind="canary")
-    return kit.run_unit("backward[%s|%d]" % (pat, nexp), run)
+    return kit.run_unit("backward[%s|%d%s]" % (pat, nexp, ",same_tensor_twice" if alias else ""), run)
 
 
 def unit_forward_frame():
@@ -453,6 +460,7 @@ def unit_minimize_reduction():
 def units(tier):
     pats = [("T", 1), ("T", 0), ("TT", 1), ("XT", 1), ("NTX", 2), ("TXNT", 2), ("XNT", 3), ("TNT", 0), ("", 0), ("X", 1)]
     us = [("backward[%s|%d]" % (p, k), (lambda p=p, k=k: unit_backward((p, k)))) for p, k in pats]
+    us.append(("backward[TT|1,same_tensor_twice]", lambda: unit_backward(("TT", 1, True))))
     us += [("forward_frame", unit_forward_frame), ("separator", unit_separator),
            ("minimize_reduction", unit_minimize_reduction)]
     return us
